@@ -207,9 +207,12 @@ def query_rules(ctx, s):
            "and the stored coordinates of the candidate)", keep[0].lineno)
     from ..exprnorm import local_value
     sqv = local_value(ga, "sq_radii")
+    _pv = lambda k: f"__item__(_prepare_vectorization(move_inside_box(coord, self._box) if self._periodic else coord, radius, np.float32), {k})"
     ctx.ob("R4.distance-filter", CL, "CellList.get_atoms", "sq_radii = radius * radius (per query, or the one radius for all)",
-           sqv is not None and any(same_expr(sqv, f"radius * radius if is_multi_radius else np.full(len({n_}), radius[0] * radius[0], dtype=np.float32)")
-                                   for n_ in ("coord", "radius")),       # _prepare_vectorization: len(radius) == len(coord)
+           # local_value composes the value from the function's inputs: coord / radius / is_multi_radius are items 0 / 1 / 3 of
+           # _prepare_vectorization(<wrapped query>, radius, np.float32) (its contract: len(radius) == len(coord))
+           sqv is not None and any(same_expr(sqv, f"{_pv(1)} * {_pv(1)} if {_pv(3)} else np.full(len({n_}), {_pv(1)}[0] * {_pv(1)}[0], dtype=np.float32)")
+                                   for n_ in (_pv(0), _pv(1))),
            "the threshold compared with the squared distance is the square of the query's radius", ga.lineno)
     # ---- periodic lists: each public query wraps ITS coordinates into the box first, so that the cell search and the distance
     # measurement see the same point
